@@ -20,13 +20,15 @@ Arguments N.pow : simpl never.
 Arguments N.sqrt : simpl never.
 
 
-Lemma dir_counter bsize s rs c j : bsz bsize -> dir_ok bsize s rs -> c <= 3 ->
+Lemma dir_counter bsize s rs c j : bsz bsize -> len s < RSQ_MAXN -> dir_ok bsize s rs -> c <= 3 ->
   j <= len s / (8 * bsize) ->
   exists sb, nthN (rs_superblocks rs) j = Some sb /\
              sb_get_superblock_counter sb c = Val (rk s c (j * (8 * bsize))).
 Proof.
-  intros Hb Hd Hc Hj. eexists. split; [apply dir_sb; eassumption|].
-  unfold W. rewrite sb_get_superblock_counter_rec; [reflexivity|exact Hc|now apply fld_bound].
+  intros Hb Hn Hd Hc Hj. rewrite RSQ_MAXN_val in Hn.
+  assert (H43 : len s < 2 ^ 43) by (norm_pow; lia).
+  eexists. split; [apply dir_sb; eassumption|].
+  unfold W. rewrite sb_get_superblock_counter_rec; [reflexivity|exact Hc|now apply fld_bound|now apply rk_lt44].
 Qed.
 
 (* ------------------------------------------------------------------ the two scans *)
@@ -147,7 +149,8 @@ Proof.
   replace (j + 1 - 1) with j by lia.
   assert (Hjj : j <= len s / (8 * bsize)) by lia.
   unfold idx at 1. rewrite (dir_sb bsize s rs j Hd Hjj). cbn [bind]. unfold W.
-  rewrite sb_get_superblock_counter_rec by (try assumption; now apply fld_bound). cbn [bind].
+  rewrite sb_get_superblock_counter_rec
+    by (try assumption; try (now apply fld_bound); apply rk_lt44; rewrite RSQ_MAXN_val in Hn; norm_pow; lia). cbn [bind].
   unfold osub at 1. replace (rk s c (j * (8 * bsize)) <=? k + 1) with true by lia. cbn [bind].
   destruct (sb_block_predecessor_rec (fun c => rk s c (j * (8 * bsize)))
               (fun c k => fld bsize s (len s + bsize) j k c) c (k + 1 - rk s c (j * (8 * bsize))) Hc
